@@ -251,9 +251,117 @@ def process(ctx, cases):
     compare(ctx, recs)
 
 
+def drillhole_exits(ctx: Ctx):
+    """Entities stored in the concatenated arrays of a drillhole group are written in two steps (arrays at once, attribute
+    records when the workspace is closed): every way of leaving the session - normally, by an explicit close(), or by an
+    exception escaping the `with` block after k completed operations - must leave a file that opens again and shows the k
+    operations.  Oracle only: concatenated storage is outside the life-cycle model (its bookkeeping is C04's)."""
+    import warnings
+    from geoh5py.groups import DrillholeGroup
+    from geoh5py.objects import Drillhole, Points
+    from geoh5py.workspace import Workspace
+    warnings.filterwarnings("ignore")
+    rng = ctx.rng
+
+    class Boom(Exception):
+        pass
+
+    for i in range(ctx.n(18, 400)):
+        path = ctx.scratch / f"c11dh_{i}.geoh5"
+        ending = rng.choice(["exception", "exception", "normal", "close"])
+        kinds = [rng.choice(["rename_hole", "set_values", "add_data", "new_hole", "flag_hole", "rename_points"]) for _ in range(rng.randrange(1, 6))]
+        case = {"part": "drillhole-exits", "ending": ending, "ops": kinds, "seed": rng.randrange(1 << 30)}
+        r2 = __import__("random").Random(case["seed"])
+        ref = {}
+        failures = []
+        try:
+            with Workspace.create(path) as ws:
+                g = DrillholeGroup.create(ws, name="DH")
+                Points.create(ws, vertices=np.zeros((2, 3)), name="pts")
+                for hn in ("h1", "h2"):
+                    h = Drillhole.create(ws, parent=g, name=hn, collar=[0.0, 0.0, 0.0], surveys=np.c_[[0.0, 10.0], [0.0, 0.0], [-90.0, -90.0]])
+                    h.add_data({"A": {"depth": np.r_[1.0, 2.0, 3.0], "values": np.r_[1.0, 2.0, 3.0]}})
+                    ref[hn] = {"visible": True, "data": {"A": [1.0, 2.0, 3.0]}}
+            pts_name = "pts"
+            ws = Workspace(path)
+            try:
+                with ws:
+                    for n_op, kind in enumerate(kinds):
+                        holes = sorted(ref)
+                        hn = holes[r2.randrange(len(holes))]
+                        h = ws.get_entity(hn)[0]
+                        if kind == "rename_hole":
+                            new = f"{hn}_r{n_op}"
+                            h.name = new
+                            ref[new] = ref.pop(hn)
+                        elif kind == "set_values":
+                            if not ref[hn]["data"]:
+                                continue
+                            dn = sorted(ref[hn]["data"])[0]
+                            vals = [float(r2.randrange(100)) for _ in ref[hn]["data"][dn]]
+                            h.get_data(dn)[0].values = np.asarray(vals)
+                            ref[hn]["data"][dn] = vals
+                        elif kind == "add_data":
+                            dn = f"B{n_op}"
+                            h.add_data({dn: {"depth": np.r_[1.0, 2.0, 3.0], "values": np.r_[7.0, 8.0, 9.0]}})
+                            ref[hn]["data"][dn] = [7.0, 8.0, 9.0]
+                        elif kind == "new_hole":
+                            new = f"n{n_op}"
+                            Drillhole.create(ws, parent=ws.get_entity("DH")[0], name=new, collar=[1.0, 0.0, 0.0],
+                                             surveys=np.c_[[0.0, 5.0], [0.0, 0.0], [-90.0, -90.0]])
+                            ref[new] = {"visible": True, "data": {}}
+                        elif kind == "flag_hole":
+                            h.visible = not ref[hn]["visible"]
+                            ref[hn]["visible"] = not ref[hn]["visible"]
+                        else:
+                            pts_name = f"pts_r{n_op}"
+                            ws.get_entity([e for e in ws.objects if type(e).__name__ == "Points"][0].uid)[0].name = pts_name
+                        del h
+                    if ending == "exception":
+                        raise Boom()
+                    if ending == "close":
+                        ws.close()
+            except Boom:
+                pass
+            ctx.count("drillhole-exits:" + ending)
+            # a fresh reader
+            try:
+                with Workspace(path, mode="r") as w2:
+                    got_holes = sorted(c.name for c in w2.get_entity("DH")[0].children if type(c).__name__.endswith("Drillhole"))
+                    if got_holes != sorted(ref):
+                        failures.append((f"after leaving the session by {ending}: holes {got_holes}, expected {sorted(ref)}", "C11:concatenated:holes-differ"))
+                    for hn, rec in ref.items():
+                        h = w2.get_entity(hn)[0]
+                        if h is None:
+                            continue
+                        if bool(h.visible) != rec["visible"]:
+                            failures.append((f"after {ending}: hole {hn} visible={h.visible}, expected {rec['visible']}", "C11:concatenated:attribute-lost"))
+                        for dn, vals in rec["data"].items():
+                            d = h.get_data(dn)
+                            got = None if not d or d[0] is None or d[0].values is None else [float(x) for x in d[0].values]
+                            if got != vals:
+                                failures.append((f"after {ending}: {hn}.{dn} reads {got}, expected {vals}", "C11:concatenated:values-differ"))
+                    if w2.get_entity(pts_name)[0] is None:
+                        failures.append((f"after {ending}: the renamed points object '{pts_name}' is not found", "C11:concatenated:plain-entity-lost"))
+            except Exception as e:  # noqa: BLE001
+                failures.append((f"after leaving the session by {ending} the file cannot be opened: {type(e).__name__}: {str(e)[:80]}", "C11:concatenated:file-unreadable"))
+        except Exception as e:  # noqa: BLE001
+            failures.append((f"drillhole session raised {type(e).__name__}: {str(e)[:100]}", f"C11:concatenated:raises-{type(e).__name__}"))
+        finally:
+            if path.exists():
+                os.remove(path)
+        ctx.case(case, nontrivial=len(kinds) >= 2)
+        for what, sig in failures:
+            ctx.fail(case, what, sig)
+
+
 def run(ctx: Ctx):
     process(ctx, gen(ctx))
+    drillhole_exits(ctx)
 
 
 def replay(ctx: Ctx, payload):
-    process(ctx, [payload["case"]])
+    if (payload.get("case") or {}).get("part") == "drillhole-exits":
+        drillhole_exits(ctx)
+    else:
+        process(ctx, [payload["case"]])
